@@ -7,7 +7,8 @@ From PF Require Import Opcodes RefTable Config Sim Ref Lex.
 Local Open Scope N_scope.
 
 Definition printable (b : N) : bool := (32 <=? b) && (b <=? 126).
-Definition graphic (b : N) : bool := (33 <=? b) && (b <=? 126).
+(* visible ASCII other than the backslash (a backslash in a GLOBAL / INST name would be read as an escape by pickletools) *)
+Definition graphic (b : N) : bool := (33 <=? b) && (b <=? 126) && negb (b =? 92).
 Definition is_byte (b : N) : bool := b <? 256.
 Definition len_le (l : list N) (n : nat) : bool := Nat.leb (length l) n.
 
